@@ -131,8 +131,7 @@ def scenario(task):
     with torch.enable_grad():
         ya = SymT(y_aug.elem.clone(), y_aug.sym.copy()).requires_grad_(True)
         fields = [('f', lambda: adj.f(t, ya)), ('g_prod', lambda: adj.g_prod(t, ya, v)), ('f_and_g_prod[0]', lambda: adj.f_and_g_prod(t, ya, v)[0])]
-        if nt == 'diagonal':
-            fields.append(('gdg', lambda: adj.g_prod_and_gdg_prod(t, ya, v, v2)[1]))
+        # (the diagonal Milstein term is detached on purpose in the library - it is only ever used as a value - and is left out)
         for nm, fn in fields:
             o = fn()
             w_ = mk('dw_' + nm.replace('[', '').replace(']', ''), tuple(o.shape), values=0.3 + 0.07 * np.arange(o.numel()).reshape(tuple(o.shape)))
